@@ -228,7 +228,7 @@ fn merge(a: &mut Secs, b: Secs) {
 fn seed_pool(ctx: &Ctx) -> Vec<Seed> {
     let mut out = vec![];
     let all = Enc::all();
-    let n_enc = if ctx.quick() { 12 } else { 64 };
+    let n_enc = if ctx.quick() { 16 } else { 64 };
     let mut order: Vec<usize> = (0..all.len()).collect();
     Rng::new(mix64(ctx.seed ^ 0x5eed)).shuffle(&mut order);
     // make sure both formats, both endians, all versions and address sizes appear
@@ -309,7 +309,7 @@ fn family_short(ctx: &mut Ctx, pool: &[Seed]) {
 }
 
 fn family_mut(ctx: &mut Ctx, pool: &[Seed]) {
-    let cap: u64 = ctx.size(500, 12_000, 6);
+    let cap: u64 = ctx.size(2500, 20_000, 5);
     for seed in pool {
         for e in ENTRIES {
             for slot in e.slots {
@@ -349,7 +349,7 @@ fn family_splice(ctx: &mut Ctx, pool: &[Seed]) {
     if pool.len() < 2 {
         return;
     }
-    let n = ctx.size(30_000, 400_000, 8);
+    let n = ctx.size(200_000, 2_000_000, 8);
     for i in 0..n {
         if !ctx.want("splice", i) {
             continue;
@@ -372,7 +372,7 @@ fn family_splice(ctx: &mut Ctx, pool: &[Seed]) {
 }
 
 fn family_rand(ctx: &mut Ctx) {
-    let n = ctx.size(60_000, 1_000_000, 8);
+    let n = ctx.size(400_000, 4_000_000, 8);
     for i in 0..n {
         if !ctx.want("rand", i) {
             continue;
@@ -458,7 +458,7 @@ fn family_patho(ctx: &mut Ctx) {
 }
 
 fn family_fault(ctx: &mut Ctx, pool: &[Seed]) {
-    let cap: u64 = ctx.size(250, 2000, 4);
+    let cap: u64 = ctx.size(600, 4000, 4);
     for seed in pool {
         for e in ENTRIES {
             if !e.slots.iter().any(|sl| !slot_get(&seed.secs, *sl).is_empty()) {
